@@ -33,7 +33,36 @@ var solvers = []solverCfg{
 }
 
 func runSolver(sc solverCfg, script string, timeoutS int) solverRes {
-	ctx, cancel := context.WithTimeout(context.Background(), time.Duration(timeoutS+5)*time.Second)
+	return runSolverCtx(context.Background(), sc, script, timeoutS)
+}
+
+// raceUnsat runs the script on several solvers at once; the first unsat answer wins and the others are cancelled.
+func raceUnsat(cfgs []solverCfg, scriptFor func(solverCfg) string, timeoutS int) []solverRes {
+	ctx, cancel := context.WithCancel(context.Background())
+	defer cancel()
+	ch := make(chan solverRes, len(cfgs))
+	for _, sc := range cfgs {
+		go func() { ch <- runSolverCtx(ctx, sc, scriptFor(sc), timeoutS) }()
+	}
+	var out []solverRes
+	for range cfgs {
+		r := <-ch
+		if ctx.Err() != nil && r.status != "unsat" {
+			continue // cancelled after another solver answered
+		}
+		out = append(out, r)
+		if r.status == "unsat" {
+			cancel()
+			// answers first in the list
+			out[0], out[len(out)-1] = out[len(out)-1], out[0]
+			break
+		}
+	}
+	return out
+}
+
+func runSolverCtx(parent context.Context, sc solverCfg, script string, timeoutS int) solverRes {
+	ctx, cancel := context.WithTimeout(parent, time.Duration(timeoutS+5)*time.Second)
 	defer cancel()
 	cmd := exec.CommandContext(ctx, sc.bin, sc.args(timeoutS)...)
 	cmd.Stdin = strings.NewReader(script)
@@ -67,15 +96,62 @@ func runSolver(sc solverCfg, script string, timeoutS int) solverRes {
 // decide runs the obligation's script: z3 5.1 first, the other solvers when it does not give a definite answer
 // (all three in parallel when `all` is set).
 func decide(ob *Obligation, timeoutS int, all bool, dumpDir string) {
+	if ob.vc != nil && ob.vc.split && ob.Expect != "sat" {
+		if choices := ob.vc.pathChoices(ob, 8); len(choices) > 1 {
+			subs := make([]*Obligation, len(choices))
+			var wg sync.WaitGroup
+			for i, ch := range choices {
+				c := *ob
+				c.Tried = nil
+				c.TimeS = 0
+				subs[i] = &c
+				wg.Add(1)
+				go func() {
+					defer wg.Done()
+					decideWith(subs[i], timeoutS, all, "", ch)
+				}()
+			}
+			wg.Wait()
+			ob.Status = "discharged"
+			ob.Solver = ""
+			for i, c := range subs {
+				ob.TimeS += c.TimeS
+				ob.Tried = append(ob.Tried, fmt.Sprintf("path %d/%d: %s %s", i+1, len(subs), c.Status, strings.Join(c.Tried, " ")))
+				if c.SMTSize > ob.SMTSize {
+					ob.SMTSize = c.SMTSize
+				}
+				switch {
+				case c.Status == "failed":
+					ob.Status, ob.Output, ob.Model, ob.Solver = "failed", c.Output, c.Model, c.Solver
+				case c.Status != "discharged" && ob.Status != "failed":
+					ob.Status, ob.Output = c.Status, c.Output
+				case ob.Status == "discharged" && !strings.Contains(ob.Solver, c.Solver):
+					ob.Solver = strings.TrimPrefix(ob.Solver+"+"+c.Solver, "+")
+				}
+			}
+			if dumpDir != "" {
+				os.MkdirAll(dumpDir, 0o755)
+				for i, ch := range choices {
+					os.WriteFile(filepath.Join(dumpDir, fmt.Sprintf("%s.path%d.smt2", mangle(ob.Name), i+1)), []byte(ob.vc.script(ob, scriptOpts{model: true, noPrune: true, choice: ch})), 0o644)
+				}
+			}
+			return
+		}
+	}
+	decideWith(ob, timeoutS, all, dumpDir, nil)
+}
+
+func decideWith(ob *Obligation, timeoutS int, all bool, dumpDir string, choice map[*Node]*Node) {
 	vc := ob.vc
 	if ob.Short && timeoutS > 3 {
 		timeoutS = 3
 	}
 	if ob.Expect != "sat" {
 		// pruned scripts first (sound: fewer hypotheses); a non-unsat answer is never trusted from a pruned script
-		full := vc.script(ob, scriptOpts{model: true, noPrune: true})
+		full := vc.script(ob, scriptOpts{model: true, noPrune: true, choice: choice})
 		var prev string
 		for _, o := range []scriptOpts{{pruneAlloc: true, rounds: 2}, {pruneAlloc: true, rounds: 4}, {pruneAlloc: true, rounds: 8}, {pruneAlloc: true}, {}} {
+			o.choice = choice
 			sc := vc.script(ob, o)
 			if sc == prev || len(sc) >= len(full) {
 				continue
@@ -88,10 +164,20 @@ func decide(ob *Obligation, timeoutS int, all bool, dumpDir string) {
 			if ob.Short && (o.rounds == 4 || o.rounds == 8) {
 				continue
 			}
-			r := runSolver(solvers[0], sc, t)
-			ob.Tried = append(ob.Tried, fmt.Sprintf("%s(pruned %dB):%s:%.2fs", r.solver, len(sc), r.status, r.secs))
-			ob.TimeS += r.secs
-			if r.status == "unsat" {
+			o2 := o
+			rs := raceUnsat(solvers, func(cfg solverCfg) string {
+				if cfg.cvc5 {
+					o3 := o2
+					o3.cvc5 = true
+					return vc.script(ob, o3)
+				}
+				return sc
+			}, t)
+			for _, r := range rs {
+				ob.Tried = append(ob.Tried, fmt.Sprintf("%s(pruned %dB):%s:%.2fs", r.solver, len(sc), r.status, r.secs))
+				ob.TimeS += r.secs
+			}
+			if r := rs[0]; r.status == "unsat" {
 				ob.Status = "discharged"
 				ob.Solver = r.solver
 				ob.SMTSize = len(sc)
@@ -103,7 +189,7 @@ func decide(ob *Obligation, timeoutS int, all bool, dumpDir string) {
 			}
 		}
 	}
-	plain := vc.script(ob, scriptOpts{model: true, noPrune: true})
+	plain := vc.script(ob, scriptOpts{model: true, noPrune: true, choice: choice})
 	ob.SMTSize = len(plain)
 	if dumpDir != "" {
 		os.MkdirAll(dumpDir, 0o755)
@@ -112,7 +198,7 @@ func decide(ob *Obligation, timeoutS int, all bool, dumpDir string) {
 	try := func(sc solverCfg) solverRes {
 		s := plain
 		if sc.cvc5 {
-			s = vc.script(ob, scriptOpts{model: true, cvc5: true, noPrune: true})
+			s = vc.script(ob, scriptOpts{model: true, cvc5: true, noPrune: true, choice: choice})
 		}
 		r := runSolver(sc, s, timeoutS)
 		return r
